@@ -892,12 +892,66 @@ def r02_5(ctx, counts) -> RuleResult:
     return res
 
 
+def r02_7(ctx, counts) -> RuleResult:
+    """the string value of a document is the text of its element content only"""
+    model: Model = ctx.model
+    res = RuleResult(
+        'R02.7', 'DOCUMENT-STRING-VALUE-TEXT-ONLY',
+        'The string value of a document node is the concatenation of the string values of its '
+        'text node descendants (XDM 6.1.2): the comments and processing instructions that lxml '
+        'keeps as children of the document contribute nothing. In the string_value / '
+        'compat_string_value of the document node classes an iteration over the children that '
+        'collects their string values is filtered: `if isinstance(child, (ElementNode, '
+        'TextNode))` or the negation for CommentNode / ProcessingInstructionNode. Otherwise '
+        'string(/) of <!--c--><a>t</a> is "ct" with lxml and "t" with ElementTree.')
+    doc = model.find_class('DocumentNode')
+    classes = [c for c in model.all_classes() if c is doc or c.is_subclass_of(doc)]
+    n = 0
+    for c in sorted(classes, key=lambda q: q.name):
+        for mname in ('string_value', 'compat_string_value'):
+            m = c.methods.get(mname)
+            if m is None:
+                continue
+            for x in ast.walk(m.node):
+                gens = []
+                if isinstance(x, (ast.GeneratorExp, ast.ListComp)):
+                    if any(isinstance(y, ast.Attribute) and y.attr in (
+                            'string_value', 'compat_string_value') for y in ast.walk(x.elt)):
+                        gens = [g for g in x.generators
+                                if stmt_text(g.iter) in ('self.children', 'self')]
+                for g in gens:
+                    n += 1
+                    tests = [t for i in g.ifs for t in ast.walk(i)
+                             if isinstance(t, ast.Call) and dotted(t.func) == 'isinstance']
+                    names = {dotted(e) for t in tests if len(t.args) == 2 for e in (
+                        t.args[1].elts if isinstance(t.args[1], ast.Tuple) else [t.args[1]])}
+                    neg = any(isinstance(i, ast.UnaryOp) and isinstance(i.op, ast.Not)
+                              for i in g.ifs)
+                    ok = (not neg and names and names <= {'ElementNode', 'TextNode',
+                                                          'EtreeElementNode'}) or \
+                         (neg and {'CommentNode', 'ProcessingInstructionNode'} <= names)
+                    res.instances.append(f'{m.key}: children joined, comments and processing '
+                                         f'instructions filtered out: {bool(ok)}')
+                    if ok:
+                        res.ok()
+                    else:
+                        res.fail(finding('R02.7', m, x, 'document string value with comments',
+                                         f'`{stmt_text(x)[:70]}` joins the string values of all '
+                                         f'the children of the document: the content of '
+                                         f'document-level comments and processing instructions '
+                                         f'(kept by lxml) becomes part of string(/)'))
+    counts['document_string_value_joins'] = n
+    if n < 1:
+        raise AnalysisError('document string value: no join over the children located')
+    return res
+
+
 def run(ctx) -> dict:
     global _MODEL
     _MODEL = ctx.model
     counts: dict[str, int] = {}
     results = [r02_1(ctx, counts), r02_2(ctx, counts), r02_3(ctx, counts), r02_4(ctx, counts),
-               r02_5(ctx, counts)]
+               r02_5(ctx, counts), r02_7(ctx, counts)]
     from .c05_purity import r05_8
     r6 = r05_8(ctx, counts)
     r6.title = 'NO-MEMO-OF-LAZY-SNAPSHOT (R02.6 = R05.8)'
